@@ -234,3 +234,76 @@ def check_callback_context(m, rule, suffixes):
             else:
                 rule.ok(site, 'NOT DECIDED: callee %s' % cv, c.loc())
     return n
+
+
+# ---- no use of a storage pointer read before a reallocation ----------------------------------------
+
+def check_stale_base(m, rule, names, base_pred, what):
+    """in each (fully inlined) entry point: an address derived from a load of the storage pointer must not be dereferenced,
+    or handed to memcpy / memmove / memset, after a realloc that the load does not post-date (the block may have moved)"""
+    from ..ir import resolve_addr
+    from ..facts import strip_bitcasts
+    n = 0
+    for name in names:
+        f = m.ifn(name)
+        if f is None:
+            continue
+        reallocs = [c for c in f.all_insts() if c.op == 'call' and c.callee == 'realloc']
+        if not reallocs:
+            continue
+        n += 1
+        loads = [i for i in f.all_insts() if i.op == 'load' and base_pred(resolve_addr(f, i.o[0]))]
+        # values derived from each load (pointer arithmetic, casts, phis)
+        bad = []
+        for ld in loads:
+            derived = {ld.ref}
+            changed = True
+            while changed:
+                changed = False
+                for i in f.all_insts():
+                    if i.ref in derived or i.op not in ('getelementptr', 'bitcast', 'ptrtoint', 'inttoptr', 'add', 'sub', 'phi', 'select'):
+                        continue
+                    if any(isinstance(o, str) and o in derived for o in (i.o if i.op != 'select' else i.o[1:])):
+                        derived.add(i.ref)
+                        changed = True
+            # only the object whose storage the realloc moves: pointers into another object's storage (a distinct source
+            # string / vector parameter) are unaffected (the property's domain excludes aliased source and destination)
+            ld_root = strip_bitcasts(f, resolve_addr(f, ld.o[0]).root)
+
+            def same_object(r):
+                old = f.get(strip_bitcasts(f, r.o[0])) if isinstance(r.o[0], str) else None
+                return old is not None and old.op == 'load' and strip_bitcasts(f, resolve_addr(f, old.o[0]).root) == ld_root
+            after = [r for r in reallocs if same_object(r) and _reaches(f, ld, r)]
+            if not after:
+                continue
+            for u in f.all_insts():
+                addr = None
+                if u.op == 'load':
+                    addr = [u.o[0]]
+                elif u.op == 'store':
+                    addr = [u.o[1]]
+                elif u.op == 'call' and (u.callee or '').startswith(('llvm.memcpy', 'llvm.memmove', 'llvm.memset')):
+                    addr = u.o[:2] if not (u.callee or '').startswith('llvm.memset') else u.o[:1]
+                elif u.op == 'call' and u.callee is None:
+                    addr = [o for o in u.o if isinstance(o, str)]
+                if not addr or not any(isinstance(a, str) and strip_bitcasts(f, a) in derived for a in addr):
+                    continue
+                for r in after:
+                    if r is not u and _reaches(f, r, u) and not (u.op == 'call' and u is r):
+                        # the realloc itself receiving the old pointer is the one legitimate use
+                        bad.append('%s read at %s is still used at %s after the realloc at %s may have moved the block' % (what, ld.loc(), u.loc(), r.loc()))
+                        break
+        if bad:
+            rule.violation(name, '; '.join(sorted(set(bad))[:2]), floc(m, f), {})
+        else:
+            rule.ok(name, '%d realloc site(s); no address derived from a storage pointer read before one is used after it' % len(reallocs), floc(m, f))
+    return n
+
+
+def _reaches(f, a, b):
+    if a.block is b.block:
+        if a.pos < b.pos:
+            return True
+        # through a loop back to the same block
+        return any(a.block in f.reachable_from(s) for s in a.block.succ)
+    return b.block in f.reachable_from(a.block)
